@@ -7,7 +7,7 @@ from props.pathscommon import graph_case, exhaustive_graphs, all_queries, base_p
 class C15(PropBase):
     id = 'C15'
     obs = {'tdag', 'occname'}
-    rule = ('temporal graph = <= 5 nodes, <= 7 instants, <= 12 point/interval interactions, both classes, int or "_"-free string ids; '
+    rule = ('temporal graph = <= 5 nodes, <= 7 instants, <= 12 point/interval interactions, both classes, int ids, "_"-free string ids or (not for C12) string ids containing "_"; arbitrary text ids for the occurrence names; '
             'temporal_dag(G,u,v,start,end) for roots in the graph, targets in {None, node, the root}, windows inside and outside the id '
             'range and start > end; the returned networkx DAG is checked for acyclicity, edge soundness against has_interaction, time '
             'order, sources = occurrences of u at window instants with a neighbour, targets, membership of sources/targets in the DAG, '
